@@ -1023,6 +1023,142 @@ def h_pending_table_iteration(i):
     return {"reproduced": failed, "observed": [l[:400] for l in lines[-2:]], "expected": "every future fails, the manager thread ends"}
 
 
+_F28_PROG = 'import os, sys, warnings\nsys.path.insert(0, "/repo")\nwarnings.simplefilter("ignore")\nfrom loky.process_executor import ProcessPoolExecutor\nfrom loky.backend import get_context\ndef getenv(k):\n    import os\n    return os.environ.get(k)\nif __name__ == "__main__":\n    seen = {}\n    for method in ("loky", "loky_init_main"):\n        ex = ProcessPoolExecutor(max_workers=1, context=get_context(method), env={"LOKY_VERIF_ENV_OVERLAY": "42"})\n        try:\n            seen[method] = ex.submit(getenv, "LOKY_VERIF_ENV_OVERLAY").result(timeout=60)\n        except BaseException as e:\n            seen[method] = "raised " + type(e).__name__\n        ex.shutdown(kill_workers=True)\n    print("value of the overlaid variable seen by a worker:", seen)\n    ok = all(v == "42" for v in seen.values())\n    print("PASS" if ok else "FAIL")\n    os._exit(0 if ok else 1)\n'
+
+
+def h_env_overlay_per_context(i):
+    """F28: env={'X': '42'} given to an executor must be in the environment of its workers under both loky start methods (loky, loky_init_main)."""
+    import subprocess
+    import tempfile
+    repo = sys.argv[3] if len(sys.argv) > 3 else "/repo"
+    with tempfile.TemporaryDirectory(prefix="f28-") as td:
+        path = os.path.join(td, "prog.py")
+        with open(path, "w") as fh:
+            fh.write(_F28_PROG.replace('"/repo"', repr(repo)))
+        out = os.path.join(td, "out.txt")
+        with open(out, "w") as fo:
+            try:
+                subprocess.run([sys.executable, path], stdout=fo, stderr=subprocess.DEVNULL, stdin=subprocess.DEVNULL, timeout=150, start_new_session=True)
+            except subprocess.TimeoutExpired:
+                pass
+        lines = [l for l in open(out, errors="replace").read().splitlines() if l and "leaked" not in l]
+    failed = any(l.startswith("FAIL") for l in lines) or not any(l.startswith("PASS") for l in lines)
+    return {"reproduced": failed, "observed": [l[:300] for l in lines[-2:]], "expected": "'42' under both start methods"}
+
+
+_F29_PROG = 'import os, sys, time, signal, threading, warnings, subprocess\nsys.path.insert(0, "/repo")\nwarnings.simplefilter("ignore")\nimport loky.backend.utils as U\nfrom loky.process_executor import ProcessPoolExecutor\ndef alive(pid):\n    try:\n        os.kill(pid, 0)\n        return open("/proc/%d/stat" % pid).read().rsplit(")", 1)[1].split()[0] != "Z"\n    except OSError:\n        return False\nif __name__ == "__main__":\n    # a slim image: neither psutil nor pgrep (procps) installed\n    U.psutil = None\n    real = subprocess.check_output\n    def no_pgrep(cmd, *a, **k):\n        if cmd and cmd[0] == "pgrep":\n            raise FileNotFoundError(2, "No such file or directory: \'pgrep\'")\n        return real(cmd, *a, **k)\n    U.subprocess.check_output = no_pgrep\n    ex = ProcessPoolExecutor(max_workers=2)\n    futs = [ex.submit(time.sleep, 60) for _ in range(2)]\n    while not all(f.running() for f in futs):\n        time.sleep(0.01)\n    time.sleep(0.5)\n    pids = list(ex._processes)\n    mt = ex._executor_manager_thread\n    t = threading.Thread(target=lambda: ex.shutdown(wait=True, kill_workers=True), daemon=True)\n    t0 = time.time(); t.start(); t.join(20)\n    time.sleep(1.0)\n    left = [p for p in pids if alive(p)]\n    print("shutdown(kill_workers=True):", "blocked" if t.is_alive() else "returned after %.1fs" % (time.time() - t0 - 1.0),\n          "| workers still alive:", len(left), "of", len(pids), "| futures failed:", sum(f.done() for f in futs))\n    ok = not t.is_alive() and not left\n    print("PASS" if ok else "FAIL")\n    for p in left:\n        os.kill(p, signal.SIGKILL)\n    os._exit(0 if ok else 1)\n'
+
+
+def h_kill_fallback_without_pgrep(i):
+    """F29: no psutil and no usable pgrep (slim container image): shutdown(kill_workers=True) falls back to killing each worker itself
+    (process.kill()); the workers must be dead afterwards."""
+    import subprocess
+    import tempfile
+    repo = sys.argv[3] if len(sys.argv) > 3 else "/repo"
+    with tempfile.TemporaryDirectory(prefix="f29-") as td:
+        path = os.path.join(td, "prog.py")
+        with open(path, "w") as fh:
+            fh.write(_F29_PROG.replace('"/repo"', repr(repo)))
+        out = os.path.join(td, "out.txt")
+        with open(out, "w") as fo:
+            try:
+                subprocess.run([sys.executable, path], stdout=fo, stderr=subprocess.DEVNULL, stdin=subprocess.DEVNULL, timeout=150, start_new_session=True)
+            except subprocess.TimeoutExpired:
+                pass
+        lines = [l for l in open(out, errors="replace").read().splitlines() if l and "leaked" not in l]
+    failed = any(l.startswith("FAIL") for l in lines) or not any(l.startswith("PASS") for l in lines)
+    return {"reproduced": failed, "observed": [l[:300] for l in lines[-2:]], "expected": "the call returns and no worker is left alive"}
+
+
+_F30_PROG = 'import os, sys, time, signal, threading, warnings\nsys.path.insert(0, "/repo")\nwarnings.simplefilter("ignore")\nfrom loky import get_reusable_executor\ndef alive(pid):\n    try:\n        os.kill(pid, 0)\n        return open("/proc/%d/stat" % pid).read().rsplit(")", 1)[1].split()[0] != "Z"\n    except OSError:\n        return False\nif __name__ == "__main__":\n    ex = get_reusable_executor(max_workers=2, timeout=None)\n    list(ex.map(abs, range(2)))\n    before = set(ex._processes)\n    ex.submit(time.sleep, 2)\n    threading.Timer(1.0, ex.shutdown, kwargs=dict(wait=False)).start()     # another thread shuts the executor down while the resize waits for the job\n    out = {}\n    try:\n        ex2 = get_reusable_executor(max_workers=4, timeout=None)\n        out["call"] = "returned"\n    except BaseException as e:\n        out["call"] = "raised %s(%s)" % (type(e).__name__, e)\n    time.sleep(3)\n    spawned = [p for p in set(ex._processes or {}) - before]\n    left = [p for p in spawned if alive(p)]\n    print("get_reusable_executor during which the executor was shut down:", out["call"], "| workers spawned into the shut-down executor and still alive:", len(left))\n    ok = out["call"] == "returned" and not left\n    print("PASS" if ok else "FAIL")\n    for p in list(before) + left:\n        try: os.kill(p, signal.SIGKILL)\n        except OSError: pass\n    os._exit(0 if ok else 1)\n'
+
+
+def h_shutdown_during_resize(i):
+    """F30: another thread calls shutdown(wait=False) on the reusable executor while a resize (2 -> 4) waits for the running job: the resize must not
+    spawn workers into the executor that is shutting down (they would be unmanaged, or the spawn raises on the closed queues)."""
+    import subprocess
+    import tempfile
+    repo = sys.argv[3] if len(sys.argv) > 3 else "/repo"
+    with tempfile.TemporaryDirectory(prefix="f30-") as td:
+        path = os.path.join(td, "prog.py")
+        with open(path, "w") as fh:
+            fh.write(_F30_PROG.replace('"/repo"', repr(repo)))
+        out = os.path.join(td, "out.txt")
+        with open(out, "w") as fo:
+            try:
+                subprocess.run([sys.executable, path], stdout=fo, stderr=subprocess.DEVNULL, stdin=subprocess.DEVNULL, timeout=150, start_new_session=True)
+            except subprocess.TimeoutExpired:
+                pass
+        lines = [l for l in open(out, errors="replace").read().splitlines() if l and "leaked" not in l]
+    failed = any(l.startswith("FAIL") for l in lines) or not any(l.startswith("PASS") for l in lines)
+    return {"reproduced": failed, "observed": [l[:300] for l in lines[-2:]], "expected": "the call returns; nothing is spawned into the shut-down executor"}
+
+
+_F31_PROG = 'import os, sys, time, errno, warnings, tempfile\nsys.path.insert(0, "/repo")\nwarnings.simplefilter("ignore")\nfrom loky.process_executor import ProcessPoolExecutor\ndef record(path, what):\n    with open(path, "a") as fh:\n        fh.write(what + "\\n")\n    return what\nif __name__ == "__main__":\n    d = os.environ["F31_DIR"]\n    path = os.path.join(d, "log")\n    open(path, "w").close()\n    ex = ProcessPoolExecutor(max_workers=1)\n    real = ex._adjust_process_count\n    calls = []\n    def flaky():\n        calls.append(1)\n        if len(calls) == 1:\n            raise OSError(errno.EMFILE, "Too many open files")      # fault injected: the first spawn fails\n        return real()\n    ex._adjust_process_count = flaky\n    try:\n        ex.submit(record, path, "payment-42")\n        first = "returned a future"\n    except OSError:\n        first = "raised OSError (the caller holds no future)"\n    f = ex.submit(record, path, "payment-42")        # the caller retries\n    f.result(timeout=60)\n    time.sleep(1)\n    ex.shutdown(wait=True)\n    runs = open(path).read().split()\n    print("first submit", first, "| retry completed | task body executions recorded:", runs)\n    ok = len(runs) == 1\n    print("PASS" if ok else "FAIL")\n    os._exit(0 if ok else 1)\n'
+
+
+def h_submit_raises_but_task_runs(i):
+    """F31: the spawn fails during the first submit (EMFILE, injected): submit raises and the caller, who holds no future, retries once: the task body
+    must have run once, not twice."""
+    import subprocess
+    import tempfile
+    repo = sys.argv[3] if len(sys.argv) > 3 else "/repo"
+    with tempfile.TemporaryDirectory(prefix="f31-") as td:
+        path = os.path.join(td, "prog.py")
+        with open(path, "w") as fh:
+            fh.write(_F31_PROG.replace('"/repo"', repr(repo)))
+        out = os.path.join(td, "out.txt")
+        with open(out, "w") as fo:
+            try:
+                subprocess.run([sys.executable, path], stdout=fo, stderr=subprocess.DEVNULL, stdin=subprocess.DEVNULL, timeout=150, start_new_session=True,
+                               env={**os.environ, "F31_DIR": td})
+            except subprocess.TimeoutExpired:
+                pass
+        lines = [l for l in open(out, errors="replace").read().splitlines() if l and "leaked" not in l]
+    failed = any(l.startswith("FAIL") for l in lines) or not any(l.startswith("PASS") for l in lines)
+    return {"reproduced": failed, "observed": [l[:300] for l in lines[-2:]], "expected": "one execution of the task body"}
+
+
+def h_exit_hook_registered_once(i):
+    """F32: three executor lifecycles (submit, shutdown) in one process: the interpreter-exit hook _python_exit must be registered once per process, not
+    once per executor (threading._threading_atexits must not grow with the number of executors)."""
+    import threading
+    import warnings
+    warnings.simplefilter("ignore")
+    import loky.process_executor as pe
+    counts = []
+    for _ in range(3):
+        ex = pe.ProcessPoolExecutor(max_workers=1)
+        ex.submit(int, 0).result(timeout=60)
+        ex.shutdown(wait=True)
+        counts.append(sum(1 for f in threading._threading_atexits if f is pe._python_exit or getattr(f, "func", None) is pe._python_exit))
+    return {"reproduced": counts[-1] > 1, "observed": {"_python_exit hooks registered after 1, 2, 3 executors": counts}, "expected": [1, 1, 1]}
+
+
+_F33_PROG = 'import os, sys, time, warnings, threading, signal\nsys.path.insert(0, "/repo")\nwarnings.simplefilter("ignore")\nfrom loky.process_executor import ProcessPoolExecutor\nclass Slow:\n    def __reduce__(self):\n        time.sleep(1.0)          # slow to pickle: both idle workers time out while the task is being sent\n        return (Slow, ())\nif __name__ == "__main__":\n    threading.excepthook = lambda a: None         # (the error of the manager thread is expected here; keep the output readable)\n    ex = ProcessPoolExecutor(max_workers=2, timeout=0.05)\n    ex.submit(int, 1).result()\n    real = ex._context.Process\n    def failing(*a, **k):\n        if threading.current_thread().name == "ExecutorManagerThread":\n            raise OSError(11, "Resource temporarily unavailable")       # fault injected: the replacement worker cannot be forked\n        return real(*a, **k)\n    ex._context.Process = failing\n    f = ex.submit(id, Slow())\n    try:\n        f.result(timeout=15)\n        out = "result"\n    except BaseException as exc:\n        out = type(exc).__name__\n    print("future of the pending task:", out, "| executor flagged broken:", ex._flags.broken is not None, "| manager thread alive:", ex._executor_manager_thread.is_alive())\n    ok = out != "TimeoutError"\n    print("PASS" if ok else "FAIL")\n    for pid in list(ex._processes or {}):\n        try: os.kill(pid, signal.SIGKILL)\n        except OSError: pass\n    os._exit(0 if ok else 1)\n'
+
+
+def h_respawn_fails_in_manager_thread(i):
+    """F33: both workers time out while a task is being sent and the replacement cannot be forked (EAGAIN injected in the manager thread): the pending
+    future must resolve (fail loudly), not hang with a dead manager thread and an executor that is not flagged broken."""
+    import subprocess
+    import tempfile
+    repo = sys.argv[3] if len(sys.argv) > 3 else "/repo"
+    with tempfile.TemporaryDirectory(prefix="f33-") as td:
+        path = os.path.join(td, "prog.py")
+        with open(path, "w") as fh:
+            fh.write(_F33_PROG.replace('"/repo"', repr(repo)))
+        out = os.path.join(td, "out.txt")
+        with open(out, "w") as fo:
+            try:
+                subprocess.run([sys.executable, path], stdout=fo, stderr=subprocess.DEVNULL, stdin=subprocess.DEVNULL, timeout=150, start_new_session=True)
+            except subprocess.TimeoutExpired:
+                pass
+        lines = [l for l in open(out, errors="replace").read().splitlines() if l and "leaked" not in l]
+    failed = any(l.startswith("FAIL") for l in lines) or not any(l.startswith("PASS") for l in lines)
+    return {"reproduced": failed, "observed": [l[:300] for l in lines[-2:]], "expected": "the future fails with a BrokenProcessPool error"}
+
+
 _F15_PROG = 'import os, sys, time, threading, warnings\nsys.path.insert(0, "/repo")\nwarnings.simplefilter("ignore")\nfrom loky.process_executor import ProcessPoolExecutor\ndef init():\n    import loky.process_executor as pe\n    pe._MAX_MEMORY_LEAK_SIZE = 0          # every memory check finds a "leak": the worker leaves cleanly after announcing its pid\n    pe._MEMORY_LEAK_CHECK_DELAY = 0.2\ndef work(i):\n    import time\n    x = [0] * 200000\n    time.sleep(0.4)\n    return i\nif __name__ == "__main__":\n    errs = []\n    threading.excepthook = lambda a: errs.append((a.thread.name, a.exc_type.__name__, str(a.exc_value)[:80]))\n    ex = ProcessPoolExecutor(max_workers=1, initializer=init)\n    futs = [ex.submit(work, i) for i in range(12)]\n    mode = sys.argv[1] if len(sys.argv) > 1 else "collected"\n    if mode == "collected":\n        del ex                            # the executor object is collected while its futures are pending\n        import gc; gc.collect()\n    res = []\n    for f in futs:\n        try:\n            res.append(f.result(timeout=6))\n        except Exception as e:\n            res.append(type(e).__name__)\n    print("results:", res)\n    print("manager thread errors:", errs)\n    ok = res == list(range(12)) and not errs\n    print("PASS" if ok else "FAIL")\n    os._exit(0 if ok else 1)\n'
 
 
